@@ -9,6 +9,8 @@
 //
 //	whole:  circuit.Garbler / circuit.Evaluator (random circuits)
 //	stream: compiler.Stream / circuit.StreamEvaluator (generated MPCL programs)
+//	overlap: a garbler process serving overlapping sessions on one shared
+//	         circuit value (overlap.go); oracle over the union of all sessions
 package main
 
 import (
@@ -51,6 +53,8 @@ func main() {
 		os.Exit(sha2pcMode(os.Args[2:]))
 	case "range":
 		os.Exit(otRange(os.Args[2:]))
+	case "overlap":
+		os.Exit(overlap(os.Args[2:]))
 	default:
 		fmt.Fprintf(os.Stderr, "unknown mode %q\n", os.Args[1])
 		os.Exit(2)
